@@ -96,7 +96,7 @@ KEYWORDS = {'at', 'from', 'end', 'open', 'in', 'do', 'then', 'else', 'fun', 'let
 CONSTS = {'_TT_OK': 'ttOk', '_TT_WARNING': 'ttWarning', '_TT_ERROR': 'ttError',
           'SEC_PER_HOUR': 'secPerHour', 'SEC_PER_MIN': 'secPerMin', 'SEC_PER_DAY': 'secPerDay'}
 
-FLAG_METHODS = ('OR', 'test_clear', 'set', 'clear', '__bool__')
+FLAG_METHODS = ('OR', 'AND', 'test_clear', 'test_set', 'set', 'clear', 'invert', '__bool__')
 FLAG_TRANSLATED = ('__init__',) + FLAG_METHODS
 
 
